@@ -91,6 +91,31 @@ def run(ctx):
             continue    # the balance checker's one-bit global is that configuration's documented purpose; it serves as the explorer's positive control below
         for sy in syms:
             ctx.fail("static-storage:%s:%s" % (be, sy.split("(")[0]), "the library object file keeps writable static storage %s: hidden mutable global state shared by all threads" % sy)
+    # (1b) the branches selected by libc probes (config.h): the few files that test HAVE_* macros, compiled stand-alone under each selection and put through the same census
+    vdir = os.path.join(build.BUILD, "run", "c16var-%d" % os.getpid())
+    os.makedirs(vdir, exist_ok=True)
+    try:
+        inc = ["-I" + os.path.join(build.REPO, "src"), "-I" + os.path.join(build.REPO, "src", "ascon"), "-I" + os.path.join(build.REPO, "src", "core"), "-I" + os.path.join(build.REPO, "src", "random")]
+        variants = [("core/ascon-clean.c", []), ("core/ascon-clean.c", ["-DHAVE_EXPLICIT_BZERO", "-DHAVE_STRINGS_H"]),
+                    ("random/ascon-trng-dev-random.c", ["-DHAVE_GETRANDOM", "-DHAVE_SYS_RANDOM_H"]), ("random/ascon-trng-dev-random.c", ["-DHAVE_GETENTROPY", "-DHAVE_SYS_RANDOM_H"]),
+                    ("random/ascon-trng-dev-random.c", ["-U__linux__", "-Ulinux", "-U__linux"])]
+        for cc in ("gcc", "clang"):
+            for vi, (src, defs) in enumerate(variants):
+                o = os.path.join(vdir, "%s-%d-%s.o" % (cc, vi, os.path.basename(src)))
+                r = subprocess.run([cc, "-std=gnu99", "-O2", "-c", os.path.join(build.REPO, "src", src), "-o", o] + defs + inc, stdout=subprocess.PIPE, stderr=subprocess.STDOUT)
+                label = "%s[%s]" % (os.path.basename(src), " ".join(defs) or "no probe macros")
+                if r.returncode:
+                    ctx.cap("variant %s does not compile here with %s (%s)" % (label, cc, r.stdout.decode().strip().splitlines()[-1][:120] if r.stdout else ""))
+                    continue
+                ctx.stat("census_objects_examined", 1)
+                for sy in census(dict(lib=o)):
+                    ctx.fail("static-storage:probe-variant:%s:%s" % (label, sy.split(":")[-1].split("(")[0]), "compiled with %s, the library file keeps writable static storage %s: hidden mutable global state shared by all threads" % (cc, sy))
+                for obj, sym in imports(dict(lib=o)):
+                    if sym in NON_REENTRANT:
+                        ctx.fail("global-state-via-libc:probe-variant:%s:%s" % (label, sym), "the library file calls %s(), a libc function that keeps process-wide mutable state" % sym)
+    finally:
+        import shutil
+        shutil.rmtree(vdir, ignore_errors=True)
     # (2) explorer on the C back ends
     budget = max(30.0, min(ctx.remaining() * 0.55, 1500.0 if t else 110.0))
     for be in (("c64", "c32", "generic") if t else ("c64", "c32")):
